@@ -12,7 +12,7 @@ import hashlib
 import numpy as np
 
 PROPERTY = "C04"
-HORIZON_S = {"quick": 1200.0, "thorough": 3000.0}
+HORIZON_S = {"quick": 240.0, "thorough": 900.0}
 RULE = (
     "state = (architecture, orientation, condition, parameter level); transitions = one mass quadrature and one "
     "sampler goodness-of-fit statistic; non-trivial = the bijection is visibly not the identity (max |log det| on "
@@ -29,7 +29,7 @@ DKW = float(np.sqrt(np.log(2 / 1e-9) / (2 * N1)))
 
 def bounds(tier):
     return {"factories": "8 configs x invert T/F x cond None/2 x 2 conditions", "levels": [1] if tier == "quick" else [1, 2],
-            "grid_2d": 301 if tier == "quick" else 601, "grid_1d": 40001, "one_d": "14 scalar expressions x levels {1,2}", "N": N1,
+            "grid_2d": 501 if tier == "quick" else 801, "grid_1d": 40001, "one_d": "14 scalar expressions x levels {1,2}", "N": N1,
             "exhaustive_within_bounds": True}
 
 
@@ -101,18 +101,15 @@ def run_case(case):
             if smp is not None and not np.isfinite(smp).all():
                 add("sample-nonfinite", f"{tag}: non-finite samples")
                 continue
-            # tail-covering interval: grown until the integral stops changing
-            L = 8.0 if smp is None else max(8.0, 1.5 * float(np.abs(smp).max()) + 1.0)
-            prev = None
-            for _ in range(8):
-                xs = np.linspace(-L, L, 40001)
-                dens = np.exp(np.asarray(lp(jnp.asarray(xs)), float))
-                dens = np.where(np.isfinite(dens), dens, 0.0)
-                I_h = float(np.trapezoid(dens, xs))
-                I_2h = float(np.trapezoid(dens[::2], xs[::2]))
-                if prev is not None and abs(I_h - prev) < 1e-5:
-                    break
-                prev, L = I_h, L * 2
+            # tail-covering sinh-spaced grid (dense near 0, geometric in the tails): x = sinh(u), dx = cosh(u) du
+            L = 50.0 if smp is None else max(50.0, 4.0 * float(np.abs(smp).max()) + 1.0)
+            U = float(np.arcsinh(L))
+            u = np.linspace(-U, U, 40001)
+            xs, jac = np.sinh(u), np.cosh(u)
+            dens = np.exp(np.asarray(lp(jnp.asarray(xs)), float))
+            dens = np.where(np.isfinite(dens), dens, 0.0)
+            I_h = float(np.trapezoid(dens * jac, u))
+            I_2h = float(np.trapezoid((dens * jac)[::2], u[::2]))
             tr += 1
             res = abs(I_h - I_2h)
             digest.update(np.ascontiguousarray(dens[::400]).tobytes())
@@ -123,7 +120,8 @@ def run_case(case):
             elif abs(I_h - 1) > 5e-3 + 4 * res:
                 add("mass", f"{tag} level {case['level']} cond#{ci}: integral of exp(log_prob) over [{-L:g},{L:g}] = {I_h:.6f} (resolution term {res:.2g})")
             if smp is not None and res <= 2e-2:
-                cdf = np.concatenate([[0.0], np.cumsum(0.5 * (dens[1:] + dens[:-1]) * np.diff(xs))])
+                dj = dens * jac
+                cdf = np.concatenate([[0.0], np.cumsum(0.5 * (dj[1:] + dj[:-1]) * np.diff(u))])
                 cdf = cdf / max(cdf[-1], 1e-300) if abs(cdf[-1] - 1) < 5e-3 + 4 * res else cdf
                 s_sorted = np.sort(smp)
                 F = np.interp(s_sorted, xs, cdf)
@@ -137,11 +135,14 @@ def run_case(case):
     else:
         fi = c01.factory_info(case["factory"], case["invert"], case["cond"])
         tag = f"factory:{case['factory']}|invert={int(case['invert'])}|cond={case['cond']}"
-        dist = c01.build_factory(case["factory"], case["invert"], case["cond"], seed, case["level"])
+        # BNAF's inverted LeakyTanh tails stretch by ~100x per layer: a gentler parameter state keeps the mass on a resolvable grid
+        dist = c01.build_factory(case["factory"], case["invert"], case["cond"], seed, case["level"], scale=0.15 if case["factory"] == "bnaf" else 0.5, layers=1 if case["factory"] == "bnaf" else 2)
         conds = [None] if case["cond"] is None else [jnp.asarray([0.5, -1.0]), jnp.asarray([-2.0, 1.5])]
-        G = (301 if case["tier"] == "quick" else 601)
+        G = (501 if case["tier"] == "quick" else 801)
         if fi.num_inv:
-            G = 151 if case["tier"] == "quick" else 301  # one bisection search per grid point
+            G = 601 if case["tier"] == "quick" else 901  # one bisection search per grid point
+        elif case["factory"] == "bnaf":
+            G = 1201 if case["tier"] == "quick" else 2401  # heavy-tailed (inverted LeakyTanh tails stretch ~100x per layer)
         for ci, c in enumerate(conds):
             smp = None
             if fi.fwd:
@@ -153,21 +154,19 @@ def run_case(case):
             if not fi.inv:
                 skipped["no-log_prob-in-this-orientation"] = skipped.get("no-log_prob-in-this-orientation", 0) + 1
                 continue
-            L = 8.0 if smp is None else max(6.0, 1.3 * float(np.abs(smp).max()) + 1.0)
+            L = 50.0 if smp is None else max(8.0, 4.0 * float(np.abs(smp).max()) + 1.0)
             lpf = jax.jit(lambda X: dist.log_prob(X, c))
-            prev = None
-            for _ in range(4):
-                ax = np.linspace(-L, L, G)
-                XX, YY = np.meshgrid(ax, ax, indexing="ij")
-                pts = np.stack([XX.ravel(), YY.ravel()], 1)
-                lp = np.concatenate([np.asarray(lpf(jnp.asarray(pts[i:i + 30000])), float) for i in range(0, len(pts), 30000)])
-                dens = np.exp(lp).reshape(G, G)
-                dens = np.where(np.isfinite(dens), dens, 0.0)
-                I_h = float(np.trapezoid(np.trapezoid(dens, ax, axis=1), ax))
-                I_2h = float(np.trapezoid(np.trapezoid(dens[::2, ::2], ax[::2], axis=1), ax[::2]))
-                if smp is not None or (prev is not None and abs(I_h - prev) < 1e-4):
-                    break
-                prev, L = I_h, L * 1.6
+            U = float(np.arcsinh(L))
+            ug = np.linspace(-U, U, G)
+            ax, jc = np.sinh(ug), np.cosh(ug)
+            XX, YY = np.meshgrid(ax, ax, indexing="ij")
+            pts = np.stack([XX.ravel(), YY.ravel()], 1)
+            lp = np.concatenate([np.asarray(lpf(jnp.asarray(pts[i:i + 100000])), float) for i in range(0, len(pts), 100000)])
+            dens = np.exp(lp).reshape(G, G)
+            dens = np.where(np.isfinite(dens), dens, 0.0) * np.outer(jc, jc)  # density w.r.t. (u, v)
+            ax = ug  # all quadrature below is done in the (u, v) coordinates; samples are mapped with arcsinh
+            I_h = float(np.trapezoid(np.trapezoid(dens, ax, axis=1), ax))
+            I_2h = float(np.trapezoid(np.trapezoid(dens[::2, ::2], ax[::2], axis=1), ax[::2]))
             tr += 1
             nt += 1
             res = abs(I_h - I_2h)
@@ -178,9 +177,10 @@ def run_case(case):
                 skipped["unresolved-quadrature"] = skipped.get("unresolved-quadrature", 0) + 1
                 continue
             if abs(I_h - 1) > 5e-3 + 4 * res:
-                add("mass", f"{tag} level {case['level']} cond#{ci}: integral of exp(log_prob) over [-{L:g},{L:g}]^2 = {I_h:.5f} (resolution term {res:.2g})")
+                add("mass", f"{tag} level {case['level']} cond#{ci}: integral of exp(log_prob) over [-{L:.3g},{L:.3g}]^2 (sinh grid) = {I_h:.5f} (resolution term {res:.2g})")
                 continue
             if smp is not None:
+                smp = np.arcsinh(smp)
                 # cells: K x K uniform partition of the central box holding ~98% of the density mass, plus 'outside'
                 K = 8
                 mx = np.trapezoid(dens, ax, axis=1)
@@ -189,26 +189,21 @@ def run_case(case):
                 my = np.trapezoid(dens, ax, axis=0)
                 cy = np.cumsum(my) / my.sum()
                 lo_j, hi_j = int(np.searchsorted(cy, 0.01)), int(np.searchsorted(cy, 0.99))
-                ex = np.linspace(ax[max(lo_i - 1, 0)], ax[min(hi_i + 1, G - 1)], K + 1)
-                ey = np.linspace(ax[max(lo_j - 1, 0)], ax[min(hi_j + 1, G - 1)], K + 1)
-                h = ax[1] - ax[0]
-                # cell probabilities by midpoint-weighted sums of the grid density (trapezoid weights)
-                w = np.ones(G)
-                w[0] = w[-1] = 0.5
-                W2 = np.outer(w, w) * dens * h * h
-                ix = np.clip(np.searchsorted(ex, ax, side="right") - 1, -1, K)
-                iy = np.clip(np.searchsorted(ey, ax, side="right") - 1, -1, K)
-                ix = np.where((ax < ex[0]) | (ax >= ex[-1]), -1, ix)
-                iy = np.where((ax < ey[0]) | (ax >= ey[-1]), -1, iy)
-                P = np.zeros((K, K))
-                inside = (ix[:, None] >= 0) & (iy[None, :] >= 0)
-                np.add.at(P, (np.where(inside, ix[:, None], 0), np.where(inside, iy[None, :], 0)), np.where(inside, W2, 0.0))
+                # cell edges ARE grid lines, so every cell mass is a trapezoid sum with the same accuracy as the total
+                ei = np.unique(np.linspace(max(lo_i - 1, 0), min(hi_i + 1, G - 1), K + 1).round().astype(int))
+                ej = np.unique(np.linspace(max(lo_j - 1, 0), min(hi_j + 1, G - 1), K + 1).round().astype(int))
+                ex, ey = ax[ei], ax[ej]
+                P = np.zeros((len(ei) - 1, len(ej) - 1))
+                for a_ in range(len(ei) - 1):
+                    for b_ in range(len(ej) - 1):
+                        blk = dens[ei[a_]:ei[a_ + 1] + 1, ej[b_]:ej[b_ + 1] + 1]
+                        P[a_, b_] = np.trapezoid(np.trapezoid(blk, ax[ej[b_]:ej[b_ + 1] + 1], axis=1), ax[ei[a_]:ei[a_ + 1] + 1])
                 p_out = max(1.0 - P.sum() / max(I_h, 1e-12), 0.0)
                 P = P / max(I_h, 1e-12)
                 sx = np.searchsorted(ex, smp[:, 0], side="right") - 1
                 sy = np.searchsorted(ey, smp[:, 1], side="right") - 1
                 ins = (smp[:, 0] >= ex[0]) & (smp[:, 0] < ex[-1]) & (smp[:, 1] >= ey[0]) & (smp[:, 1] < ey[-1])
-                Cn = np.zeros((K, K))
+                Cn = np.zeros(P.shape)
                 np.add.at(Cn, (sx[ins], sy[ins]), 1)
                 n = len(smp)
                 exp_ = np.concatenate([P.ravel() * n, [p_out * n]])
@@ -217,9 +212,8 @@ def run_case(case):
                 exp_m = np.concatenate([exp_[big], [exp_[~big].sum()]])
                 obs_m = np.concatenate([obs[big], [obs[~big].sum()]])
                 keep = exp_m > 0
-                # cells straddle grid points: each cell probability carries a discretisation error ~ perimeter * h * density;
-                # allow it as a relative slack on the expected counts
-                slack = 0.02 * exp_m[keep]
+                # quadrature error of the cell masses, bounded by the mass-resolution term (relative), as slack
+                slack = (2e-3 + 2 * res) * exp_m[keep]
                 dev = np.maximum(np.abs(obs_m[keep] - exp_m[keep]) - slack, 0.0)
                 chi2 = float(np.sum(dev**2 / exp_m[keep]))
                 dof = int(keep.sum() - 1)
